@@ -250,6 +250,7 @@ func (vc *VC) execInstr(fr *Frame, st *State, instr ssa.Instruction) {
 			d := vc.def(fmt.Sprintf("(Array %s Bool)", vc.sortOf(mt.Key())), fmt.Sprintf("(select %s %s)", vc.get(st, dom), m), "iterdom")
 			vc.fact(st.pc, fmt.Sprintf("(>= %s 0)", n))
 			vc.fact(st.pc, fmt.Sprintf("(=> (= %s 0) (= %s 0))", m, n))
+			vc.fact(st.pc, fmt.Sprintf("(= %s %s)", n, vc.mapCard(st, mt, m)))
 			vc.fact(st.pc, fmt.Sprintf("(forall ((j Int)) (! (=> (and (<= 0 j) (< j %s)) (select %s (%s j))) :pattern ((%s j))))", n, d, kf, kf))
 			vc.fact(st.pc, fmt.Sprintf("(forall ((k %s)) (! (=> (and (not (= %s 0)) (select %s k)) (exists ((j Int)) (and (<= 0 j) (< j %s) (= (%s j) k)))) :pattern ((select %s k))))", vc.sortOf(mt.Key()), m, d, n, kf, d))
 			pos := fmt.Sprintf("G_iterpos_%d", id)
@@ -308,7 +309,8 @@ func (vc *VC) execInstr(fr *Frame, st *State, instr ssa.Instruction) {
 		vc.assume("goroutine bodies started with 'go' are not part of the sequential verification condition (K5 structural checks only)")
 
 	case *ssa.Send:
-		vc.assume("channel sends are not modelled (K5 structural checks only)")
+		vc.event(fr, st, vc.chanEventName(true, x.Chan), []string{vc.value(fr, st, x.Chan)})
+		vc.assume("channel sends are not modelled beyond their ghost event (K5 structural checks only)")
 
 	case *ssa.Select:
 		// tuple (index, recvOk, recv...): havoc
@@ -320,6 +322,10 @@ func (vc *VC) execInstr(fr *Frame, st *State, instr ssa.Instruction) {
 		}
 		vc.fact(st.pc, fmt.Sprintf("(and (<= %d %s) (< %s %d))", ternInt(x.Blocking, 0, -1), vals[0], vals[0], len(x.States)))
 		fr.tuples[x] = vals
+		for i, sst := range x.States {
+			// ghost event of the case that was taken
+			vc.condEvent(fr, st, fmt.Sprintf("(= %s %d)", vals[0], i), vc.chanEventName(sst.Dir == types.SendOnly, sst.Chan), []string{vc.value(fr, st, sst.Chan)})
+		}
 		vc.waitPoint(fr, st, "select")
 		vc.assume("select: an arbitrary ready case is taken; received values are arbitrary")
 
@@ -463,6 +469,7 @@ func (vc *VC) execUnOp(fr *Frame, st *State, x *ssa.UnOp) {
 			vc.bind(fr, x, "Int", vc.wrapIf(fmt.Sprintf("(- %s)", v), x.Type(), true))
 		}
 	case token.ARROW:
+		vc.event(fr, st, vc.chanEventName(false, x.X), []string{vc.value(fr, st, x.X)})
 		vc.havocValue(fr, st, x, "channel receive")
 		vc.waitPoint(fr, st, "recv")
 		vc.assume("channel receives yield arbitrary values (K5 structural checks only)")
